@@ -83,6 +83,8 @@ class BLS12_381_G1Type(BytesType, prim='bls12_381_g1'):
     def to_point(self) -> G1Uncompressed:
         x = int.from_bytes(self.value[:48], 'big')
         y = int.from_bytes(self.value[48:], 'big')
+        if (x, y) == (POW_2_382, 0):
+            return cast(G1Uncompressed, bls12_381.Z1)
         point = FQ(x), FQ(y), FQ(1)
         return cast(G1Uncompressed, point)
 
@@ -115,6 +117,8 @@ class BLS12_381_G2Type(BytesType, prim='bls12_381_g2'):
         x_re = int.from_bytes(self.value[48:96], 'big')
         y_im = int.from_bytes(self.value[96:144], 'big')
         y_re = int.from_bytes(self.value[144:192], 'big')
+        if (x_re, x_im, y_re, y_im) == (0, POW_2_382, 0, 0):
+            return cast(G2Uncompressed, bls12_381.Z2)
         point = FQ2([x_re, x_im]), FQ2([y_re, y_im]), FQ2([1, 0])
         return cast(G2Uncompressed, point)
 
